@@ -196,6 +196,8 @@ def _body(repo, rep):
     # the path rules below are a second, spelling-dependent look at what check_encode_msg_evaluated() decides by
     # evaluation: on a spelling they do not recognise (a computed control header, a read-ahead loop) they step aside
     def _typestate_rules():
+        if any(isinstance(x, ast.YieldFrom) for x in walk_no_nested(enc)):
+            raise AnalysisError("encode_msg delegates the fragments of a part to another generator (yield from)")
         # ---- (3)/(4) typestate over encode_msg ------------------------------------------
         cfg = CFG(enc, body=body_nodoc(enc), may_raise=lambda n: False)
         fails = []
@@ -279,9 +281,13 @@ def _body(repo, rep):
                 rep.ok(rule, f"{FQ}.encode_msg :: all paths", f"{n_app[0]} append visits")
         # the generator yields feed `next(cmd_fragments)` / `next(ds_fragments)` from the right stream
         nexts = [(norm(c.args[0]), _pdv_header(enclosing(c, (ast.Expr,)))) for c in walk_no_nested(enc) if isinstance(c, ast.Call) and dotted(c.func) == "next"]
-        okn = all((h & 1) == (1 if v == "cmd_fragments" else 0) for v, h in nexts if isinstance(h, int)) and len(nexts) >= 2
+        okn = all((h & 1) == (1 if v == "cmd_fragments" else 0) for v, h in nexts if isinstance(h, int))
+        if len(nexts) < 2:
+            raise AnalysisError("encode_msg does not take its fragments with next() from two generators")
         rep.check(okn, "order-flags", f"{FQ}.encode_msg", f"{nexts}", "command headers must wrap command-set fragments and data headers data-set fragments", mod=mod, node=enc)
         gens = {norm(s.targets[0]): norm(s.value.args[0]) for s in walk_no_nested(enc) if isinstance(s, ast.Assign) and isinstance(s.value, ast.Call) and dotted(s.value.func) == "self._generate_pdv_fragments"}
+        if not gens:
+            raise AnalysisError("encode_msg does not bind the fragment generators to locals")
         rep.check(gens == {"cmd_fragments": "encoded_command_set", "ds_fragments": "encoded_data_set"}, "order-flags", f"{FQ}.encode_msg", f"{gens}", "fragment generators must be fed the command set and the data set respectively", mod=mod, node=enc)
 
 
@@ -386,6 +392,49 @@ class _FileStub:
         return out
 
 
+def eval_encode_msg(repo: Repo, cmd: bytes, data, mode: str, mx: int, offset: int = 9):
+    """encode_msg evaluated (sa/minipy.py) for one message: `mode` is 'none' (no data set), 'memory' (data set in a
+    BytesIO holding `data`) or 'file' (data set read from a file at `offset`). -> (list of PDV payload bytes,
+    problem text or None). Raises minipy.Unsupported when the code cannot be evaluated."""
+    from ..minipy import GenResult, Interp, Obj
+    import math as _math
+
+    mod = repo.mod("dimse_messages")
+    ci = mod.classes.get("DIMSEMessage")
+    enc = repo.func("dimse_messages", "DIMSEMessage.encode_msg")
+
+    def resolver(cls, name):
+        fn_ = ci.methods.get(name) if ci is not None else None
+        if fn_ is None:
+            return None
+        return fn_, any(norm(d) == "staticmethod" for d in fn_.decorator_list)
+
+    data = data or b""
+    ds_obj, path = None, None
+    if mode == "memory":
+        ds_obj = Obj("BytesIO", {"@getvalue": lambda s_, d_=data: d_, "@getbuffer": lambda s_, d_=data: d_, "@seek": lambda s_, *a: 0, "@read": lambda s_, d_=data: d_})
+    if mode == "file":
+        path = ("/f.dcm", offset)
+    me = Obj("DIMSEMessage", {"command_set": Obj("Dataset", {}), "data_set": ds_obj, "_data_set_path": path, "_data_set_file": None, "context_id": None, "encoded_command_set": None})
+    g = {"ceil": _math.ceil, "encode": lambda *a, c_=cmd, **k_: c_, "open": lambda p_, m_="rb", d_=data: _FileStub(b"\x00" * offset + d_), "Path": lambda x: x, "bytes": bytes}
+    it = Interp(g, classes={"P_DATA": lambda: Obj("P_DATA", {"presentation_data_value_list": []})}, method_resolver=resolver)
+    it.gen_partial = True
+    res = it.call_function(enc, {"self": me, "context_id": 5, "max_pdu_length": mx})
+    got, problem = [], None
+    for pd in res:
+        pl = pd.get("presentation_data_value_list") if isinstance(pd, Obj) else None
+        if not isinstance(pl, list) or len(pl) != 1 or not isinstance(pl[0], tuple) or len(pl[0]) != 2:
+            problem = "a P-DATA primitive that does not hold exactly one (context id, PDV) pair"
+            break
+        if pl[0][0] != 5:
+            problem = f"a PDV under context id {pl[0][0]!r} instead of the message's"
+            break
+        got.append(bytes(pl[0][1]))
+    if isinstance(res, GenResult) and res.raised is not None and problem is None:
+        problem = f"the encoder raises {res.raised.kind} after {len(got)} fragment(s)"
+    return got, problem
+
+
 def check_encode_msg_evaluated(repo: Repo, rep: Report, k0: int) -> None:
     """encode_msg itself, evaluated (sa/minipy.py; the message, the P-DATA primitive and the file are recording
     stand-ins) for peer maxima 0, k+1, k+2, k+4, k+10 and part lengths around multiples of the payload size, on
@@ -407,8 +456,10 @@ def check_encode_msg_evaluated(repo: Repo, rep: Report, k0: int) -> None:
             return None
         return fn_, any(norm(d) == "staticmethod" for d in fn_.decorator_list)
 
-    def stream(n_, salt):
-        return bytes((salt + 7 * x) % 251 for x in range(n_))
+    def stream(n_, salt, flat=False):
+        # distinct bytes show reordering / loss; a flat stream (a blank image) shows decisions taken by comparing
+        # fragment *contents* instead of positions
+        return bytes([salt % 251]) * n_ if flat else bytes((salt + 7 * x) % 251 for x in range(n_))
 
     def expect(part, pay, first, last):
         if pay is None:
@@ -426,9 +477,9 @@ def check_encode_msg_evaluated(repo: Repo, rep: Report, k0: int) -> None:
             for lc in sorted({1, unit, unit + 1, 2 * unit, 2 * unit + 1}):
                 for mode in ("none", "memory", "file"):
                     lds = [None] if mode == "none" else sorted({1, unit - 1, unit, unit + 1, 2 * unit, 3 * unit} - {0}) + [0]
-                    for ld in lds:
-                        cmd = stream(lc, 3)
-                        data = stream(ld, 101) if ld else b""
+                    for ld, flat in [(ld_, fl_) for ld_ in lds for fl_ in ((False, True) if mx in (0, k0 + 2) else (False,))]:
+                        cmd = stream(lc, 3, flat)
+                        data = stream(ld, 101, flat) if ld else b""
                         offset = 9
                         ds_obj = None
                         path = None
